@@ -637,14 +637,23 @@ func (s *Sim) onEpoch(m *Model, t *TxTrace) {
 		return
 	}
 	_ = view
-	blacked := ""
-	if t.P != nil && t.P.Step.Op == "blacknode" {
-		blacked = chain.PubHex(s.Peer(t.P.Step.Arg(0))) // blacked by this very transaction
+	// members blacklisted by this very transaction (blackNode event carries the key list)
+	blacked := map[string]bool{}
+	for _, e := range t.Events {
+		if st, ok := e.States.([]interface{}); ok && len(st) == 2 {
+			if name, _ := st[0].(string); name == "blackNode" {
+				if keys, ok := st[1].([]string); ok {
+					for _, k := range keys {
+						blacked[k] = true
+					}
+				}
+			}
+		}
 	}
 	for id, it := range old.PeerPoolMap {
 		nw, in := pm.PeerPoolMap[id]
 		status := it.Status
-		if id == blacked {
+		if blacked[id] {
 			status = node_manager.BlackStatus
 		}
 		switch status {
